@@ -50,8 +50,20 @@ def main():
         lean.build_and_audit(pid, pre_build=getattr(mod, "pre_build", None))
         if tier == "thorough" and lean.proofs_ok:
             common_leanchecker(lean, pid)
+        import fingerprint
+        gate = fingerprint.changed(pid)
+        if gate:
+            ctx.notes.append("source gate: anchored code differs from the tree the model was written against: " + ", ".join(gate[:12])
+                             + (" …" if len(gate) > 12 else "") + " — failing-input search run in addition to the ordinary stream")
+            print(f"[{pid}] source gate: {len(gate)} anchored definition(s) changed: " + ", ".join(gate[:4]) + (" …" if len(gate) > 4 else ""))
+        ctx.dist["source_gate_changed_definitions"] = len(gate)
         try:
             mod.run(ctx)
+            if gate and not ctx.violations and not ctx.disagreements and hasattr(mod, "search"):
+                # changed code that still agrees with the model on the ordinary stream: look further before passing
+                saved = (ctx.rng, ctx.oracle_only)
+                mod.search(ctx)
+                ctx.rng, ctx.oracle_only = saved
         except Exception:
             # the harness itself failed: never silently pass
             traceback.print_exc()
